@@ -13,6 +13,7 @@ from ..core import AnalysisError
 from ..core import RuleResult
 from ..core import norm
 from ..flow import NORMAL
+from ..flow import BaseState
 from ..flow import RAISE
 from ..flow import Domain
 from ..flow import Interp
@@ -824,6 +825,117 @@ def _inl(rule):
     return run
 
 
+FLAGS = ('previous-sequence', 'next-sequence')
+
+
+class _FS(BaseState):
+    __slots__ = ('defd', 'trace', 'cur_exc')
+
+    def __init__(self, defd=frozenset()):
+        self.defd = defd
+        self.trace = ()
+        self.cur_exc = None
+
+    def key(self):
+        return tuple(sorted(self.defd))
+
+    def copy(self):
+        n = _FS(self.defd)
+        n.trace = self.trace
+        return n
+
+
+class _FlagDefs(Domain):
+    def __init__(self, is_body_render):
+        self.is_body_render = is_body_render
+        self.sites = {}        # id(call) -> (call, missing flags or ())
+
+    def effects(self, stmt, st):
+        for c in ast.walk(stmt):
+            if isinstance(c, ast.Call) and self.is_body_render(c):
+                miss = tuple(f for f in FLAGS if f not in st.defd)
+                cur = self.sites.get(id(c))
+                if cur is None or (miss and not cur[1]):
+                    self.sites[id(c)] = (c, miss, st.trace)
+        n = st
+        if isinstance(stmt, ast.Assign):
+            for t in stmt.targets:
+                if isinstance(t, ast.Subscript) and isinstance(
+                        t.slice, ast.Constant) and t.slice.value in FLAGS \
+                        and t.slice.value not in n.defd:
+                    n = n.copy()
+                    n.defd = n.defd | {t.slice.value}
+        return n
+
+    def on_return(self, node, st):
+        if node.value is not None:
+            self.effects(ast.Expr(value=node.value), st)
+        return [], st
+
+
+def rule_flags_defined(model):
+    r = RuleResult('C11.R8', 'next-sequence and previous-sequence have a '
+                   'value of their own for every element a batched dtml-in '
+                   'renders: they are in the variable object\'s initial '
+                   'table or assigned on every path before the body is '
+                   'rendered (an undefined flag resolves to the enclosing '
+                   'batch\'s flag in a nested loop)')
+    ci = model.modules['DT_InSV'].classes.get('sequence_variables')
+    init = ci.methods.get('__init__') if ci else None
+    if init is None:
+        raise AnalysisError('C11.R8: sequence_variables.__init__ not found')
+    initial = set()
+    for x in own_nodes(init.node):
+        if isinstance(x, ast.Assign) and any(
+                norm(t) == 'self.data' for t in x.targets) and \
+                isinstance(x.value, ast.Dict):
+            initial |= {k.value for k in x.value.keys
+                        if isinstance(k, ast.Constant)}
+        if isinstance(x, ast.Assign) and isinstance(
+                x.targets[0], ast.Subscript) and \
+                norm(x.targets[0].value) in ('self.data', 'data') and \
+                isinstance(x.targets[0].slice, ast.Constant):
+            initial.add(x.targets[0].slice.value)
+    if not initial:
+        raise AnalysisError('C11.R8: initial variable table not found')
+    fi = model.func('DT_In', 'InClass.renderwb')
+    aliases = {'render_blocks'}
+    for x in own_nodes(fi.node):
+        if isinstance(x, ast.Assign) and isinstance(x.value, ast.Name) and \
+                x.value.id == 'render_blocks' and isinstance(
+                    x.targets[0], ast.Name):
+            aliases.add(x.targets[0].id)
+    sect = {'self.section'}
+    for x in own_nodes(fi.node):
+        if isinstance(x, ast.Assign) and norm(x.value) == 'self.section' \
+                and isinstance(x.targets[0], ast.Name):
+            sect.add(x.targets[0].id)
+
+    def is_body_render(c):
+        return isinstance(c.func, ast.Name) and c.func.id in aliases and \
+            c.args and norm(c.args[0]) in sect
+    dom = _FlagDefs(is_body_render)
+    it = Interp(dom, max_states=200000)
+    it.run(fi.node, _FS(frozenset(f for f in FLAGS if f in initial)))
+    if it.overflow:
+        raise AnalysisError('C11.R8: state budget exceeded')
+    if len(dom.sites) < 2:
+        raise AnalysisError(f'C11.R8: only {len(dom.sites)} renderings of '
+                            'the body found in renderwb')
+    for c, miss, trace in dom.sites.values():
+        r.instance(fi.where, c, 'flags defined' if not miss
+                   else f'UNDEFINED: {", ".join(miss)}')
+        if miss:
+            r.finding(fi.where, f'{norm(c)} without {", ".join(miss)}',
+                      f'the body is rendered on a path on which '
+                      f'{", ".join(miss)} was never given a value (not in '
+                      'the initial table, not assigned before): inside '
+                      'another batch the name resolves to the outer loop\'s '
+                      'flag, elsewhere <dtml-var next-sequence> raises '
+                      'KeyError', node=c, ctx=fi, path=trace)
+    return r
+
+
 def rule_memo_reiterable(model):
     r = RuleResult('C11.R7', 'the batch lists (previous-batches / '
                    'next-batches) and everything else memoised in the '
@@ -838,7 +950,8 @@ def rule_memo_reiterable(model):
 
 
 RULES = [_inl(rule_windows), _inl(rule_keys), _inl(rule_params), _inl(rule_opt_forms), _inl(rule_window_invariants),
-         _inl(rule_orphan), rule_memo_reiterable]
+         _inl(rule_orphan), rule_memo_reiterable,
+         _inl(rule_flags_defined)]
 EXPLANATION = (
     'Linear normal forms of the arguments of every opt() call and of every '
     'published batch key, compared with the documented formula (sites must '
